@@ -22,6 +22,18 @@ var opts = gen.RichOpts{Malformed: true, Oversized: true, Copy: true, Auth: true
 func genCase(t *rapid.T) Case {
 	c := Case{History: gen.Rich(t, opts)}
 	c.Stepwise = rapid.Bool().Draw(t, "stepwise")
+	if rapid.IntRange(0, 5).Draw(t, "other-version?") == 0 {
+		// every protocol version a client may announce: earlier majors, later minors and majors, and
+		// neighbours of the request codes (the codes themselves are requests, not versions)
+		c.Proto = rapid.OneOf(
+			rapid.SampledFrom([]uint32{1 << 16, 2 << 16, 2<<16 | 1, 3<<16 | 1, 3<<16 | 2, 3<<16 | 0xFFFF, 4 << 16, 1, 0xFFFFFFFF, 0x7FFFFFFF, 0x80000000, 80877101, 80877105}),
+			rapid.Uint32Range(1, 5<<16),
+			rapid.Uint32(),
+		).Draw(t, "version")
+		if c.Proto >= 80877102 && c.Proto <= 80877104 {
+			c.Proto = 0
+		}
+	}
 	c.SSLFirst = rapid.IntRange(0, 7).Draw(t, "ssl-first") == 0
 	c.BadPass = c.Cfg.Auth != nil && rapid.IntRange(0, 3).Draw(t, "bad-pass") == 0
 	if rapid.IntRange(0, 3).Draw(t, "segmented?") == 0 {
